@@ -1,6 +1,6 @@
 """C18 Only workable configurations are accepted; a rejected update changes nothing (spec/ConfigCells.tla)."""
 import json, time
-import vlib, cfgfam
+import vlib, cfgfam, janfam
 
 
 def run(tier, seed):
@@ -17,12 +17,17 @@ def run(tier, seed):
                                          {"kind": "cfgdrv", "problem": {k: p[k] for k in ("cats", "line", "event", "context")}, "input": p["replay_input"]}))
         else:
             notes.append("first mismatch of a behaviour concerns %s" % p["cats"])
-    cov = {"evaluations": r["lines"], "distinct_nontrivial": max(2, len(r["kinds"])), "samples": [r["sample"]],
+    # accepted cleanup_interval changes arriving at every point of the janitor's cycle (held / running, long after the last cycle):
+    # the process must stay alive (spec/JanitorCtl.tla schedules on the real cache; which interval governs is C13 / C19)
+    jp = janfam.check_part("C18", tier, seed + 1, only={"process_died"})
+    viol += jp["violations"]
+    notes += jp["notes"]
+    cov = {"janitor_interval_schedules": jp["coverage"], "evaluations": r["lines"], "distinct_nontrivial": max(2, len(r["kinds"])), "samples": [r["sample"]],
            "rule": "fault enumeration by TLC over update documents (each setting valid / other valid value / decodes-but-unworkable / ill-typed, one or two "
                    "settings per document), command-line overrides and configuration-file write failure (RLIMIT_FSIZE cuts the write); each sequence is replayed on the "
                    "real config package with a live memory cache, janitor and listeners; after every step the effective settings, the components and the file are "
                    "judged by TLC (ConfigCellsTrace); a dead driver process counts as a violation.",
-           "states": m.get("distinct"), "transitions": m.get("states"), "traces_validated_against_impl": r["behaviours"],
+           "states": m.get("distinct"), "transitions": m.get("states"), "traces_validated_against_impl": r["behaviours"] + jp["traces"],
            "step_kinds": r["kinds"], "notes": notes[:10], "model_checking": {"config": m["name"], "distinct_states": m.get("distinct")}}
     vlib.write_evidence("C18", tier, "fault_enumeration", cov, time.time() - t0, len(viol),
                         ["settings exercised: max_cache_size, cleanup_interval, memory_budget_percent, lock_shards, logging.level",
@@ -32,6 +37,8 @@ def run(tier, seed):
 
 def replay(path):
     art = json.load(open(path))
+    if art.get("kind") == "jandrv":
+        return [path] if janfam.replay(art) else []
     r = cfgfam.replay(art["input"]["behaviours"])
     out = []
     for p in r["problems"]:
